@@ -17,7 +17,7 @@ package keepclient
 
 // Helpers used by putReplicas whose only relevant property here is their frame
 // (service discovery does network I/O and is outside the engine's reach).
-//@ func KeepClient.getRequestID property C11
+//@ func KeepClient.getRequestID trustedframe property C11
 //@   modifies nothing
 // Service discovery: a client whose service tables were given explicitly
 // (discovery disabled: SetServiceRoots / LoadKeepServicesFromJSON, where some
